@@ -99,19 +99,29 @@ Proof.
   vm_compute in H. discriminate.
 Qed.
 
-(* PUSH_PROMISE on a locally reset parent is refused before the promised identifier is looked at (repair 631577b):
-   a promised identifier of the wrong parity, never used, gets RST_STREAM on an idle stream of OURS and moves our own
-   next_stream_id *)
+(* The repaired defect 60d7633.  Before it, the arm of Inner::recv_push_promise for a locally reset parent (repair
+   631577b) refused the promised stream BEFORE looking at the promised identifier: *)
+Definition old_refusal_arm (st : conn) (promised : N) : outcome :=
+  if negb (c_push_local st) then res1 st [] (RErr conn_proto)
+  else res1 st [ORxRefused promised] (RErr (lib_reset promised CANCEL)).
+
 Definition st_l6 : conn :=
   mk_conn Client [(1, mkS 1 (Closed (CError (EReset 1 8 User))) false false true [] None)] [(1, 1)] 3 2.
-Example refusal_names_unchecked_identifier :
-  match step st_l6 (LRecvPushPromise 1 7 pobs_ok 9) with
-  | Ok st1 outs =>
-    result_of outs = RErr (EReset 7 CANCEL Library) /\
-    match step st1 (LPoll2Reset 7 CANCEL true true 9) with
-    | Ok st2 outs2 => outs_queued outs2 = [(7, 3, false, false, CANCEL)] /\ c_send_next st2 = Some 9 /\ not_idle st1 7 = false
-    | _ => False
-    end
-  | _ => False
-  end.
-Proof. vm_compute. auto. Qed.
+
+(* an identifier of the wrong parity, never used (idle, and one of OUR OWN), was answered with RST_STREAM on that idle
+   stream, and Inner::send_reset moved our own next_stream_id past it; the repaired step ends the connection *)
+Theorem push_refusal_fix_needed :
+  (match old_refusal_arm st_l6 7 with
+   | Ok st1 outs =>
+     result_of outs = RErr (EReset 7 CANCEL Library) /\ not_idle st1 7 = false /\ is_local_init (c_role st1) 7 = true /\
+     match step st1 (LPoll2Reset 7 CANCEL true true 9) with
+     | Ok st2 outs2 => outs_queued outs2 = [(7, 3, false, false, CANCEL)] /\ c_send_next st2 = Some 9
+     | _ => False
+     end
+   | _ => False
+   end) /\
+  (match step st_l6 (LRecvPushPromise 1 7 pobs_ok 9) with
+   | Ok st1 outs => is_conn_error (result_of outs) = true /\ st1 = st_l6
+   | _ => False
+   end).
+Proof. vm_compute. auto 10. Qed.
